@@ -267,8 +267,8 @@ class NamedTupleValidator(_ToTupleValidator[_NTT]):
         return (
             type(self) == type(other)
             and self.named_tuple_cls is other.named_tuple_cls
-            and other.validate_object is self.validate_object
-            and other.validate_object_async is self.validate_object_async
+            and other.validate_object == self.validate_object
+            and other.validate_object_async == self.validate_object_async
             and other.schema == self.schema
             and other.fail_on_unknown_keys == self.fail_on_unknown_keys
             and other.coerce == self.coerce
